@@ -382,10 +382,8 @@ func (db *Database) processPostingsForTerm(
 		doc := &db.Commands[p.docID]
 
 		// Platform filtering (skip if AllPlatforms is enabled)
-		if !options.AllPlatforms && len(doc.Platform) > 0 {
-			if !isPlatformCompatible(doc.Platform, currentPlatform) && !isCrossPlatformTool(doc.Command) {
-				continue
-			}
+		if !platformAllowed(doc, options, currentPlatform) {
+			continue
 		}
 
 		// Pipeline filtering
@@ -582,12 +580,44 @@ func bm25IDF(n, df int) float64 {
 	return math.Log((float64(n)-float64(df)+0.5)/(float64(df)+0.5) + 1)
 }
 
-func isPlatformCompatible(platforms []string, current string) bool {
-	for _, p := range platforms {
-		if strings.EqualFold(p, "cross-platform") || strings.EqualFold(p, current) {
+// platformAllowed is the platform filter shared by every search path. A command
+// passes when all platforms are requested, when it declares no platform, when it
+// declares one of the platforms in force (the ones the user asked for, otherwise
+// the host's), or - unless cross-platform entries are excluded - when it is
+// tagged cross-platform or is a recognised cross-platform tool.
+func platformAllowed(cmd *Command, options SearchOptions, currentPlatform string) bool {
+	if options.AllPlatforms || len(cmd.Platform) == 0 {
+		return true
+	}
+	if len(options.Platforms) == 0 {
+		if declaresPlatform(cmd.Platform, currentPlatform) {
 			return true
 		}
-		if checkPlatformVariant(p, current) {
+	}
+	for _, wanted := range options.Platforms {
+		if declaresPlatform(cmd.Platform, normalizePlatformName(wanted)) {
+			return true
+		}
+	}
+	if options.NoCrossPlatform {
+		return false
+	}
+	return declaresPlatform(cmd.Platform, "cross-platform") || isCrossPlatformTool(cmd.Command)
+}
+
+// normalizePlatformName maps a user-supplied platform name to the names used in the database.
+func normalizePlatformName(name string) string {
+	name = strings.ToLower(strings.TrimSpace(name))
+	if name == "darwin" || name == "osx" {
+		return constants.PlatformMacOS
+	}
+	return name
+}
+
+// declaresPlatform reports whether one of the declared platform tags names the given platform.
+func declaresPlatform(platforms []string, platform string) bool {
+	for _, p := range platforms {
+		if strings.EqualFold(p, platform) || checkPlatformVariant(p, platform) {
 			return true
 		}
 	}
